@@ -329,6 +329,26 @@ func (r *fidRun) step(e fidEdge) bool {
 	}
 	problems := r.fs.EndScript()
 	good := true
+	// a read or write of zero bytes is a read / write like any other: it succeeds or fails on the same grounds
+	if (lab.Op == "read" || lab.Op == "write") && (lab.Err == "" || lab.Err == "unknownfid" || lab.Err == "notopen" || lab.Err == "noread" || lab.Err == "nowrite" || lab.Err == "dirwrite") {
+		var zerr error
+		r.fs.StartProbe()
+		okz := r.timed(lab.Op+"-zero", func() {
+			if lab.Op == "read" {
+				_, zerr = r.sess.Read(ctx, f, []byte{}, 0)
+			} else {
+				_, zerr = r.sess.Write(ctx, f, []byte{}, 0)
+			}
+		})
+		r.fs.EndProbe()
+		if !okz {
+			return false
+		}
+		if (zerr == nil) != (lab.Err == "") {
+			r.viol("state", "result:"+lab.Op+":zero-count", fmt.Sprintf("%s of zero bytes returns %v where a %s of some bytes %s", lab.Op, zerr, lab.Op, map[bool]string{true: "succeeds", false: "fails with " + lab.Err}[lab.Err == ""]))
+			good = false
+		}
+	}
 	// result class
 	switch {
 	case lab.Err == "" && err != nil:
